@@ -241,7 +241,19 @@ def b_pop(interp, b, idx=-1):
     return bm.wrap_elem(one[0])
 
 
-BYTES_METHODS = {"extend": b_extend, "append": b_append, "clear": b_clear, "hex": b_hex, "decode": b_decode,
+def b_join(interp, sep, iterable):
+    parts = interp.bm.iterate(interp, iterable)
+    rope = []
+    for i, x in enumerate(parts):
+        if not isinstance(x, BytesV):
+            interp.throw("TypeError", "sequence item: expected a bytes-like object")
+        if i:
+            rope.extend(sep.rope)
+        rope.extend(x.rope)
+    return BytesV(rope, sep.kind)
+
+
+BYTES_METHODS = {"join": b_join, "extend": b_extend, "append": b_append, "clear": b_clear, "hex": b_hex, "decode": b_decode,
                  "copy": b_copy, "startswith": b_startswith, "insert": b_insert, "pop": b_pop,
                  "__len__": lambda interp, b: ops.rope_len(b.rope)}
 MUTATING = {"extend", "append", "clear", "insert", "pop", "copy"}
